@@ -46,8 +46,15 @@ func batchGen(nkeys int) *rapid.Generator[Batch] {
 		var b Batch
 		kind := rapid.IntRange(0, 5).Draw(t, "batchkind") // 0: only deletes, 1: big values, else mixed
 		n := rapid.IntRange(1, nkeys).Draw(t, "nwrites")
+		// half of the tables cover a narrow window of the (sorted) key universe, so that tables with disjoint and with
+		// barely touching key ranges are common (decisions taken from MinKey/MaxKey have to be right for them)
+		lo, hi := 0, nkeys-1
+		if rapid.Bool().Draw(t, "window") {
+			lo = rapid.IntRange(0, nkeys-1).Draw(t, "winLo")
+			hi = rapid.IntRange(lo, min(lo+2, nkeys-1)).Draw(t, "winHi")
+		}
 		for i := 0; i < n; i++ {
-			w := Write{Key: rapid.IntRange(0, nkeys-1).Draw(t, "key")}
+			w := Write{Key: rapid.IntRange(lo, hi).Draw(t, "key")}
 			switch {
 			case kind == 0:
 				w.Del = true
